@@ -335,7 +335,7 @@ func (x *wexec) step(si int, s WStep) {
 		x.deadline = t
 	case "writer":
 		x.writer(si, s, false)
-	case "peerclose", "peerviolation", "peerbig":
+	case "peerclose", "peerclose_custom", "peerviolation", "peerbig":
 		x.peer(si, 0, s.Op, s.Level)
 	case "bad":
 		x.bad(si, s)
@@ -361,7 +361,7 @@ func (x *wexec) writer(si int, s WStep, bad bool) {
 	}
 	rest := data
 	for pi, p := range s.Parts {
-		if p.API == "peerclose" || p.API == "peerviolation" || p.API == "peerbig" {
+		if p.API == "peerclose" || p.API == "peerclose_custom" || p.API == "peerviolation" || p.API == "peerbig" {
 			x.peer(si, pi+1, p.API, p.MT)
 			continue
 		}
@@ -466,10 +466,18 @@ func (x *wexec) peer(si, pi int, kind string, code int) {
 	masked := x.server // peers of a server mask
 	f := wsref.Frame{Fin: true, Masked: masked, Key: [4]byte{9, 8, 7, 6}}
 	switch kind {
-	case "peerclose":
+	case "peerclose", "peerclose_custom":
 		f.Opcode = wsref.OpClose
 		if code > 0 {
 			f.Payload = wsref.CloseBody(code, "bye")
+		}
+		if kind == "peerclose_custom" {
+			// an application-supplied close handler that echoes the close itself,
+			// the way the documentation of SetCloseHandler describes
+			c := x.c
+			c.SetCloseHandler(func(code int, text string) error {
+				return c.WriteControl(websocket.CloseMessage, websocket.FormatCloseMessage(code, ""), time.Now().Add(time.Hour))
+			})
 		}
 	case "peerviolation":
 		f.Opcode = wsref.OpText
